@@ -46,6 +46,9 @@ func c05Operands(thorough bool) []string {
 	}
 	for _, c := range c05Coefficients(thorough) {
 		for _, e := range c05Exponents(thorough) {
+			if c != "0" && len(c)+e-1 > 6144 {
+				continue // beyond the decimal128 range: not a deliverable operand
+			}
 			for _, sign := range []string{"", "-"} {
 				if e == 0 {
 					add(sign + c)
